@@ -8,6 +8,7 @@ its type and tag.  Each group of batches runs in a child interpreter under a wat
 import itertools
 import json
 import os
+import shutil
 import subprocess
 import sys
 import tempfile
@@ -34,9 +35,9 @@ RULE = ('cases: seeded batch_run calls on a self-identifying fixture model: grid
 ASSUMPTIONS = ['a batch_run call that hangs in Pool.terminate() after a failed execution is the known finding F7; any other hang is inconclusive',
                'fault position = n-th model construction (global ordinal claimed through O_EXCL files), which equals the list position for one '
                'process and approximates it for several', 'a hang outside that mechanism is reported as inconclusive by the watchdog, not as a violation']
-FLOORS = {'quick': {'faults_raised_right_after_the_run_completed_itself': 2, 'records_with_class_level_state_checked': 6046, 'batches_with_a_run_that_calls_a_deprecated_alias': 3, 'batches_with_spawned_workers': 5, 'fault_exc_InjectedOSError': 5, 'batches_after_a_refused_batch_run_call': 11, 'parameter_list_used_for_an_earlier_batch': 8, 'parameter_list_from_a_dict_reused_by_the_caller': 8, 'fault_exc_InjectedModelComplete': 5, 'batches': 100, 'executions_checked': 310, 'records_checked': 1200, 'fault_batches': 30, 'faults_propagated': 30,
+FLOORS = {'quick': {'step_limit_reached_after_a_warm_up': 2, 'batches_whose_collectors_rebind_their_records': 14, 'batches_whose_models_warm_up_in_their_constructor': 8, 'batches_with_an_empty_product': 2, 'faults_raised_right_after_the_run_completed_itself': 2, 'records_with_class_level_state_checked': 6046, 'batches_with_a_run_that_calls_a_deprecated_alias': 3, 'batches_with_spawned_workers': 5, 'fault_exc_InjectedOSError': 5, 'batches_after_a_refused_batch_run_call': 11, 'parameter_list_used_for_an_earlier_batch': 8, 'parameter_list_from_a_dict_reused_by_the_caller': 8, 'fault_exc_InjectedModelComplete': 4, 'batches': 100, 'executions_checked': 310, 'records_checked': 1200, 'fault_batches': 30, 'faults_propagated': 30,
                     'multi_process_batches': 50, 'reordered_batches': 5, 'serial_order_checks': 9, 'limit_below_completion': 15,
-                    'limit_above_completion': 15, 'multi_collector_batches': 20, 'no_collector_batches': 6, 'big_batches_many_runs': 1, 'big_batches_long_runs': 1, 'big_batches_many_repetitions': 1, 'fault_exc_InjectedKeyError': 5, 'collectors_at_completer_priority': 27, 'parameter_list_with_history': 10, 'procs_1': 20, 'procs_2_4': 20, 'procs_5_8': 8, 'procs_9_16': 8},
+                    'limit_above_completion': 15, 'multi_collector_batches': 20, 'no_collector_batches': 6, 'big_batches_many_runs': 1, 'big_batches_long_runs': 1, 'big_batches_many_repetitions': 1, 'fault_exc_InjectedKeyError': 5, 'collectors_at_completer_priority': 22, 'parameter_list_with_history': 10, 'procs_1': 20, 'procs_2_4': 20, 'procs_5_8': 8, 'procs_9_16': 8},
           'thorough': {'batches': 3000, 'fault_batches': 1000, 'reordered_batches': 200, 'procs_9_16': 200}}
 EXHAUSTIVE = {}
 
@@ -50,7 +51,11 @@ def gen_grid(rng):
         if total * k > 12:
             k = 1
         kind = rng.choice(['list', 'list', 'scalar', 'str', 'range', 'repeat'])
-        if kind == 'scalar' or k == 1 and rng.random() < 0.5:
+        if rng.random() < 0.04:
+            # a collection that happens to be empty (a filtered candidate list): the product is empty - no execution, no result
+            grid[n] = rng.choice([[], {'__range__': [0, 0]}])
+            k = 0
+        elif kind == 'scalar' or k == 1 and rng.random() < 0.5:
             grid[n] = rng.choice([7, 2.5, True, None])
             k = 1
         elif kind == 'str':
@@ -100,9 +105,15 @@ def gen_spec(rng, sid, fault_ordinal=None, base=None):
                     rejected_first=(rng.choice([0, -1, '2', 2.5]) if rng.random() < 0.25 else None),
                     start_method=(rng.choice(['spawn', 'forkserver']) if procs > 1 and rng.random() < 0.12 else None),
                     pl_from_dict=use_pl and rng.random() < 0.4, pl_warmup=(rng.choice([2, 3, 0]) if use_pl and rng.random() < 0.5 else None),
+                    warmup=(rng.randint(1, 4) if rng.random() < 0.2 else 0),          # the model's constructor runs some timesteps itself
+                    collector_style=rng.choice(['append', 'append', 'rebind']),          # how the fixture's collectors update their records
                     collector_priority=rng.choice([None, None, 0]))   # 0 = same priority as the completing system   # the ParameterList was built before and a parameter removed since
     spec = dict(base)
     spec['id'] = sid
+    if spec.get('warmup') and 'fault' not in spec and fault_ordinal is None and rng.random() < 0.6:
+        # a step limit close to where the warm-up left the clock, completion well beyond both
+        spec['max_timesteps'] = max(0, spec['warmup'] + rng.choice([-1, 0, 1, 2]))
+        spec['stop'] = max(spec['stop'], spec['warmup'] + 3)
     spec['delays'] = [rng.choice([0, 0.001, 0.002, 0.003, 0.0005]) for _ in range(rng.randint(2, 7))]
     if fault_ordinal is not None:
         kind = rng.choice(['ctor', 'step'])
@@ -142,18 +153,19 @@ def run_child(ctx, specs):
         rounds += 1
         if rounds > len(specs) + 3:
             raise Inconclusive('batch children keep dying without progress')
-        fd, path = tempfile.mkstemp(prefix='c15-specs-', suffix='.json')
+        # the child's scratch files (its control directories, too) live in a directory of this run that is removed whatever happens to it
+        scratch = tempfile.mkdtemp(prefix='c15-run-')
+        path = os.path.join(scratch, 'specs.json')
         try:
-            with os.fdopen(fd, 'w') as f:
+            with open(path, 'w') as f:
                 json.dump(todo, f)
             try:
                 last = subprocess.run(child_python() + [os.path.join(here, 'vlib', 'fixtures', 'batch_child.py'), path], capture_output=True,
-                                      text=True, timeout=60 * len(todo) + 120, env=env, cwd=here)
+                                      text=True, timeout=60 * len(todo) + 120, env=dict(env, TMPDIR=scratch), cwd=here)
             except subprocess.TimeoutExpired:
                 raise Inconclusive('a batch child interpreter hung beyond its own watchdog')
         finally:
-            if os.path.exists(path):
-                os.unlink(path)
+            shutil.rmtree(scratch, ignore_errors=True)
         started = None
         for line in last.stdout.splitlines():
             try:
@@ -196,10 +208,20 @@ def check_batch(ctx, spec, out):
     expected_params = combos * reps
     n = len(expected_params)
     lim = spec['max_timesteps']
-    steps = list(range(min(spec['stop'], lim if lim is not None else 10 ** 9)))
+    warm = spec.get('warmup') or 0
+    # timesteps below the completion step are recorded; the batch stops stepping at the limit, the constructor's own warm-up steps are its own
+    steps = list(range(min(spec['stop'], max(warm, lim) if lim is not None else 10 ** 9)))
+    if warm:
+        ctx.count('batches_whose_models_warm_up_in_their_constructor')
+        if lim is not None and warm < lim < spec['stop']:
+            ctx.count('step_limit_reached_after_a_warm_up')
+    if spec.get('collector_style') == 'rebind':
+        ctx.count('batches_whose_collectors_rebind_their_records')
     detail = dict(spec={k: v for k, v in spec.items() if k != 'delays'})
     ctx.count('batches')
     ctx.ev()
+    if n == 0:
+        ctx.count('batches_with_an_empty_product')
     if lim is not None and lim < spec['stop']:
         ctx.count('limit_below_completion')
     if lim is not None and lim > spec['stop']:
@@ -287,7 +309,7 @@ def check_batch(ctx, spec, out):
         for cid, recs in per.items():
             ts = [r['t'] for r in recs]
             if ts != steps:
-                raise CaseViolation(f'an execution recorded timesteps {ts}; with completion at {spec["stop"]} and limit {lim} it must run exactly {steps}',
+                raise CaseViolation(f'an execution recorded timesteps {ts}; with completion at {spec["stop"]} and limit {lim}' + (f' (and {warm} warm-up steps run by its constructor)' if warm else '') + f' it must run exactly {steps}',
                                     collector=cid, **detail)
             for r in recs:
                 ctx.count('records_checked')
